@@ -7,6 +7,7 @@ package vfeng
 
 import (
 	"fmt"
+	"os"
 	"strings"
 )
 
@@ -120,6 +121,9 @@ func ReplayHistory(sys System, hist []string) (bool, string) {
 	defer sys.Close()
 	for i, op := range hist {
 		obs, vk, what := sys.Apply(op)
+		if os.Getenv("KMV_TRACE") != "" {
+			fmt.Fprintf(os.Stderr, "TRACE step %d %s -> %s | %s\n", i, op, obs, sys.Canon())
+		}
 		if vk != "" {
 			return true, fmt.Sprintf("step %d %s -> %s: %s :: %s", i, op, obs, vk, what)
 		}
